@@ -63,7 +63,7 @@ proof fn vacuity_subst(f: v1::Function, rep: Map<u64, v1::Function>, fss: Seq<Se
 ''', 'vacuity: premises of lemma_substitute_value and the term-list axioms')
     asm.raw(common.FOOTER)
     return dict(
-        composes_with={'C05': ['Instance::evaluate', 'eval_dependencies', 'Instance::check_bound']},
+        composes_with={'C05': ['Instance::evaluate', 'eval_dependencies', 'Instance::check_bound'], 'C02': '*'},      # evaluation of the substituted instance (C05); the Function operators Function::substitute builds its expression with (C02)
         min_items=10,
         trusted_base=common.TRUSTED_COMMON + common.T4_COLLECTIONS + [
             'T4: HashMap::iter().collect() yields each entry exactly once in SOME order (helper hashmap_iter_collect): the proof holds for every iteration order',
